@@ -69,11 +69,31 @@ func runC19(c *fw.Ctx) {
 	n := c.Idx + 1
 	leaves := make([]util.Hashable, n)
 	ls := make([]string, n)
+	// leaf hashes of one tree have one fixed width: 64 hex characters for most sizes, every fourth size another width
+	// (shorter and longer than the interior hashes)
+	width := 64
+	if n%4 == 2 {
+		width = []int{1, 8, 40, 63, 65, 96, 128, 200}[(n/4)%8]
+		if width < 8 && n > 12 { // too few distinct strings of that width
+			width = 8
+		}
+		c.Count("trees_with_other_leaf_width", 1)
+	}
+	wide := func(seed string) string {
+		out := ""
+		for k := 0; len(out) < width; k++ {
+			out += refHashHex(fmt.Sprintf("%s/%d", seed, k))
+		}
+		return out[:width]
+	}
 	for i := 0; i < n; i++ {
-		ls[i] = refHashHex(fmt.Sprintf("leaf/%d/%d/%d", c.Seed, n, i))
+		ls[i] = wide(fmt.Sprintf("leaf/%d/%d/%d", c.Seed, n, i))
+		if width == 1 {
+			ls[i] = string("0123456789abcdef"[i%16])
+		}
 		leaves[i] = leafHash(ls[i])
 	}
-	c.Describe(map[string]any{"n": n, "leaf_i": "sha3(\"leaf/<seed>/<n>/<i>\") hex"})
+	c.Describe(map[string]any{"n": n, "leaf_width": width, "leaf_i": "sha3(\"leaf/<seed>/<n>/<i>/<k>\") hex, concatenated and cut to the width"})
 	var mt util.MerkleTree
 	mt.ComputeTree(leaves)
 	root := mt.GetRoot()
@@ -177,7 +197,10 @@ func runC19(c *fw.Ctx) {
 	for i := 0; i < n; i++ {
 		lsB[i] = ls[(i+1)%n] // rotated order ...
 	}
-	lsB[n/2] = refHashHex(fmt.Sprintf("other/%d/%d", c.Seed, n)) // ... and one new leaf
+	lsB[n/2] = wide(fmt.Sprintf("other/%d/%d", c.Seed, n)) // ... and one new leaf
+	if width == 1 {
+		lsB[n/2] = "x"
+	}
 	for i := range lsB {
 		leavesB[i] = leafHash(lsB[i])
 	}
@@ -355,16 +378,16 @@ func init() {
 		ID:           "C19",
 		EvalCounters: []string{"paths_verified", "other_leaf_rejections"},
 		Level:        "exploration",
-		Rule: "one case per leaf count n=1..N (N=1024 quick, 4096 thorough) with distinct 64-hex leaf hashes derived from (seed,n,i); every leaf index i is exercised: " +
+		Rule: "one case per leaf count n=1..N (N=1024 quick, 4096 thorough) with distinct leaf hashes derived from (seed,n,i), all of one width per tree (64 hex characters; for every fourth n one of 1, 8, 40, 63, 65, 96, 128, 200 characters); every leaf index i is exercised: " +
 			"path by index and by leaf lookup must verify against GetRoot() (library verifier and an independent one), root must equal an independent pairwise/duplicate-last reference, " +
 			"the same path must not verify for other leaves (all others for n<=64; neighbours, sibling, last leaves, 3 random and a one-nibble mutation above), export/import must reproduce root and paths; a different tree (rotated leaves plus one new leaf) is then loaded with SetTree / re-computed with ComputeTree into the objects that already served lookups and its by-leaf and by-index paths must prove the new leaves only; returned paths are edited/appended to by the harness and the tree re-verified; every 16th size also computes independent trees in 4 concurrent goroutines and compares with the sequential roots; a tree loaded from GetTree() without copying must be unaffected by the exporter computing other trees, and by SetTree calls on itself that are rejected for a wrong size. " +
 			"distinct non-trivial = distinct (n,i) pairs whose path was produced and verified",
 		Cases:      c19Sizes,
 		Run:        runC19,
 		Exhaustive: func(string) bool { return true },
-		Floors:     map[string]int64{"trees": 1000, "paths_verified": 500000, "other_leaf_rejections": 3000000, "settree_wrong_size_rejected": 1000, "reused_object_paths": 5000, "loaded_tree_paths_after_exporter_reuse": 3000, "paths_after_caller_edits": 3000, "concurrent_independent_tree_groups": 60},
+		Floors:     map[string]int64{"trees": 1000, "trees_with_other_leaf_width": 250, "paths_verified": 500000, "other_leaf_rejections": 3000000, "settree_wrong_size_rejected": 1000, "reused_object_paths": 5000, "loaded_tree_paths_after_exporter_reuse": 3000, "paths_after_caller_edits": 3000, "concurrent_independent_tree_groups": 60},
 		Assumptions: []string{
-			"leaf hashes are distinct fixed-length (64 hex) strings: the tree concatenates strings, variable-length leaves are outside the property's domain",
+			"leaf hashes of one tree are distinct strings of one fixed width (64 hex in most trees, 1..200 characters in a quarter of them): the tree concatenates strings, so leaves of different widths within one tree are outside the property's domain",
 			"exhaustive over n<=N and all indices, not over all leaf values",
 		},
 	})
